@@ -143,7 +143,7 @@ def flush_task(ctx):
                 r.status = "inconclusive"
                 r.notes.append("cut-off argument or segment_id not resolved")
                 continue
-            res, model = q.check(ev.reach, a != s + 1)
+            res, model = q.check(ev.reach, a != s + 1, domain=E.domain)
             r.queries += 1
             r.nontrivial = True
             if res == z3.sat:
@@ -341,7 +341,7 @@ def wal_append(ctx):
                         r.status = "inconclusive"
                         r.notes.append("return value not resolved")
                         continue
-                res, model = q.check(reach, d == 0, cfg, z3.Not(z3.And(g1, g2)))
+                res, model = q.check(reach, d == 0, cfg, z3.Not(z3.And(g1, g2)), domain=E.domain)
                 r.queries += 1
                 if res == z3.sat:
                     r.status = "violated"
